@@ -284,108 +284,96 @@ float
 
 root	packet	f32a
 	{  }")).
-Eval vm_compute in ("<<<M1445>>>" ++ check (runes_of_ascii "
-
-  options {
-	FixedStringPadFromLeft
-    = true;
-    FixedStringPadChar= '0' 
-;	}
-packet
-Leg
+Eval vm_compute in ("<<<M1461>>>" ++ check (runes_of_ascii "  // packet A { u8 x, }
+	root packet	leftPad
 { 
-repeat
+@calculatedFrom(
 
-    InSym93 
+//x
+  	""`tick`""
+	)
+@rightPad
+
+    ( ) 
+// " ++ [128512]%N ++ runes_of_ascii " emoji
+
+  string_
+
+// `tick` ""quote"" 'q'
+// a // b
+	@lengthOf( tag
+)`a\`
+
+,  i64 T`" ++ [233]%N ++ runes_of_ascii "` , 	 //	t
+	  }
+
+packet
+    Pad// @lengthOf(
+		{  @lengthOf( 
+float
+	) 
+char[]
+	x
+    @calculatedFrom(
+
+    ""a\""b"" )
+	,// trailing space 
+
+@tag(	0 // " ++ [128512]%N ++ runes_of_ascii " emoji
+	) // " ++ [27880; 37322]%N ++ runes_of_ascii "
+repeatCount // packet A { u8 x, }
+    	,repeat
+	rootA 
 {
-	zchar[ 
-3 ]
+_x	, zchar[
+3 ] 
+roots
+/// triple
+  	`crlf
+line` , }
 
-    Acct
-	,
-string
-Side2
-, i32
-Flags
-,  f32 Note
-	,
-i32
-	msgKind	,},
+    , 
+    /// triple
+	// a // b
 
-    f64
-Note , uint16
-Px
-	,
+match 
+metadata
+as BodyLength	{
+    [
+// c
+  10
 
-} packet  Quote	{  zchar[  2
-]
+,
+	10
+	, ""a\""b"",
+    """"
+    ,""\n""
+	, ""a\\""
 
-OrderId ,  }packet
-
-    Ack{  repeat
-
-    string lastPx ,
-
-zchar[
-    4  ]price
-,  uint32 OrderId ,
-	Quote, int8
-Acct
 , 
-} packet Fill
+4294967296	]  :u, } , repeat
+    i64_ Packet
+`" ++ [28040; 24687; 31867; 22411]%N ++ runes_of_ascii "`	,  @tag( 	 // packet A { u8 x, }
+  	65535) char[] 
+float
 
-    { repeat	Leg  ,
+`it's`,	char[
+7
+]x@calculatedFrom(	""{,}"" )
+,}MetaData
 
-@rightPad (  '0')	char[ 11	] Note ,	f64
+leftPad // a // b
+    {body
 
-    Px
-    ,
+    rootA
+`crlf
+line`,
+int64
 
-    @rightPad  (
-    '\x00'	)  char[
-    5
+    msg_type `doc`,	// @lengthOf(
+  }
 
-    ]
-Flags , zchar[ 9 
-]	x  ,
-
-string msgKind
-    ,
-    } root packet Order  { 
-Leg 
-, repeat
-
-    Ack
-, @rightPad
-(	'\x00'	) char[
-	3
-]Side2
-,
-	repeat  char[
-	1]
-seqNo
-,
-
-    u16  clOrdID
-,
-
-match  clOrdID as Body {
-
-    198:	Leg
-
-    ,
-23
-: 
-Quote 
-,	13 
-: Ack, 
-159:Fill,
-    } ,	u32
-
-    venue
-	@calculatedFrom(""CRC32"") 
-,
-} ")).
+")).
 Eval vm_compute in ("<<<M371>>>" ++ check (runes_of_ascii "root
     packet
 packetx
@@ -596,38 +584,41 @@ u128 ) , charz
 x
     , }
 ")).
-Eval vm_compute in ("<<<M328>>>" ++ check (runes_of_ascii "
-packet
-Logon { repeatCount { BodyLength
-    `crlf
-line`, }
-    , zchar a1 `u8 x,`  ,
-match Foo as Foo { ""\n"" :i8i8,[
-""abc""
-    , // trailing space 
-""CRC32"" ]
-/// triple
-// " ++ [128512]%N ++ runes_of_ascii " emoji
-: // @lengthOf(
-crc
-    [ 3 ,
-//
-// " ++ [128512]%N ++ runes_of_ascii " emoji
-""x y"", 42 , ""`tick`""
-, 1 , ""a\""b"",
-    ""CRC32"" , 255 ]:repeatCount , [// " ++ [128512]%N ++ runes_of_ascii " emoji
-1
-// a // b
-// " ++ [27880; 37322]%N ++ runes_of_ascii "
-,007 ,
-""\n"",007 , 7 , ""// no comment"" ,
-255 ] :
-    uint8x 00
-: f32a , } ,
-    // a // b
-    uint16 Pad @lengthOf( uint8x)// packet A { u8 x, }
-`doc`  ,
-}")).
+Eval vm_compute in ("<<<M1468>>>" ++ check (runes_of_ascii "// top
+options {
+    // c1
+    LittleEndian = true;// c5a
+}// c6
+
+packet Logon {
+    u8 x,// c12
+}// c13a
+
+// c13b
+packet Logout {
+    // c16
+    u16 reason,// c19a
+}
+
+// c20
+root packet Frame {
+    // c24
+    u16 Kind,// c27a
+    // c27b
+    u16 Kind2,
+    match Kind as Body {
+        // c35
+        1 : Logon,
+        // c39
+        [2, 3, 4] : Logout,
+        // c49
+        100 : Logon,
+    },
+    match Kind2 as Trailer {
+        // c60
+        0 : Logout,
+    },
+}// c67")).
 Eval vm_compute in ("<<<M14>>>" ++ check (runes_of_ascii "MetaData u128
     {// a // b
 string zchar //x
@@ -732,24 +723,26 @@ root packet Frame {
     },
 }
 ")).
-Eval vm_compute in ("<<<M215>>>" ++ check (runes_of_ascii "root	packet
-    i8i8 { @tag( // c
-4294967296 )
-    // packet A { u8 x, }
-    Header  calculatedFrom `
+Eval vm_compute in ("<<<M287>>>" ++ check (runes_of_ascii "root // trailing space 
+packet int {
+    f32a @calculatedFrom(""packet"" )
+    `
 `
-, @tag(4294967296 )
-@rightPad ( ' '
-    )
-@lengthOf( float )
-    options1 zchar `" ++ [233]%N ++ runes_of_ascii "`
-//x
-/// triple
-,}	root packet
-    // " ++ [128512]%N ++ runes_of_ascii " emoji
-    x {repeat
-zchar[  10 ]	x`u8 x,`,
-    }")).
+    , } options
+{
+    rootA
+    // @lengthOf(
+    =
+""\" ++ [233]%N ++ runes_of_ascii """; }
+    packet
+i8i8 {
+    // trailing space 
+    uint8
+    uint8x
+    @lengthOf( string_ ) //	t
+, i32 tag //	t
+@lengthOf(
+Logon )  , }")).
 Eval vm_compute in ("<<<M139>>>" ++ check (runes_of_ascii "packet//x
 x_y_z {rootA @lengthOf( o ) `two words` ,} MetaData f32a{
 trueish
